@@ -21,7 +21,7 @@ ASSUMPTIONS = ["model decoder and model scalar multiplication (vf/model/bls12381
                "condition; everything else is a round trip through the library itself"]
 ENGINE = "hypothesis"
 TECHNIQUE = ("property-based testing (Hypothesis): sign/verify and prove/verify round trips through the public API with an independent-model side condition on the public key")
-_REQ = ["rt:basic", "rt:aug", "rt:pop", "pop", "reject:int", "reject:type", "reject:numeric_twin_after_use", "keygen", "rt:sk=boundary",
+_REQ = ["rt:sk=curve_parameter_related", "rt:basic", "rt:aug", "rt:pop", "pop", "reject:int", "reject:type", "reject:numeric_twin_after_use", "keygen", "rt:sk=boundary",
         "rt:sk>=200b", "rt:msg=empty", "rt:msg=56-64", "rt:msg=65-1024"]
 REQUIRED_LABELS = {"quick": _REQ, "thorough": _REQ + ["rt:msg=>1KiB"]}
 
@@ -50,7 +50,7 @@ def o_roundtrip(ctx, case):
     ctx.check(S.KeyValidate(pk) is True, "roundtrip", "honest_key_invalid", case, "KeyValidate(SkToPk(sk)) is not True")
     ctx.label(f"rt:{suite}")
     c = sc.sk_class(sk)
-    ctx.label("rt:sk=boundary" if c == "boundary" else f"rt:sk{c}")
+    ctx.label("rt:sk=boundary" if c == "boundary" else ("rt:sk=curve_parameter_related" if c == "curve_parameter_related" else f"rt:sk{c}"))
     if sk.bit_length() >= 200:
         ctx.label("rt:sk>=200b")
     ctx.label(f"rt:msg={sc.msg_class(msg)}")
@@ -149,8 +149,6 @@ def o_keygen(ctx, case):
     ctx.sample(case, "keygen")
 
 
-ORACLES = {"roundtrip": o_roundtrip, "pop": o_pop, "reject": o_reject, "reject_after_use": o_reject_after_use,
-           "keygen": o_keygen}
 
 
 def s_rt(big):
@@ -179,6 +177,24 @@ def t_rt(ctx, shard, nshards, n):
     # quick tier: a rotating third of the 84 pinned examples per run would hide boundaries; run all
     drive(ctx, f"rt{shard}", s_rt(ctx.tier == "thorough"), lambda c: o_roundtrip(ctx, c), n, ex[shard::nshards],
           shrink=False)
+
+
+def t_special_pk(ctx):
+    """SkToPk on every curve-parameter-related scalar against the model (cheap; no pairing)."""
+    for k in sc.SPECIAL_SKS:
+        case = {"suite": "basic", "sk": k}
+        ctx.begin("special_pk", case)
+        pk = sc.lib_suite("basic").SkToPk(k)
+        ctx.check(pk == blssig.sk_to_pk(k), "special_pk", "pk_value", case,
+                  f"SkToPk({k}) is not the compressed point sk*G1")
+    ctx.label("special_pk", len(sc.SPECIAL_SKS))
+    ctx.nontrivial_bulk(len(sc.SPECIAL_SKS))
+
+
+def o_special_pk(ctx, case):
+    ctx.begin("special_pk", case)
+    pk = sc.lib_suite(case["suite"]).SkToPk(case["sk"])
+    ctx.check(pk == blssig.sk_to_pk(case["sk"]), "special_pk", "pk_value", case, "SkToPk(sk) is not the compressed point sk*G1")
 
 
 def t_pop(ctx, shard, nshards, n):
@@ -216,10 +232,14 @@ def t_keygen(ctx, shard, n):
     drive(ctx, f"keygen{shard}", strat, lambda c: o_keygen(ctx, c), n, ex if shard == 0 else (), shrink=False)
 
 
+ORACLES = {"roundtrip": o_roundtrip, "pop": o_pop, "reject": o_reject, "reject_after_use": o_reject_after_use, "special_pk": o_special_pk,
+           "keygen": o_keygen}
+
+
 def tasks(tier):
     selfcheck()
     q = tier == "quick"
-    out = [Task("reject", "t_reject")]
+    out = [Task("reject", "t_reject"), Task("special-pk", "t_special_pk")]
     ns = 11
     for s in range(ns):
         out.append(Task(f"rt-{s}", "t_rt", shard=s, nshards=ns, n=40 if q else 700))
